@@ -20,7 +20,7 @@ from ..core.outcome import Violation
 
 NAME = "ctrlsim"
 SIM_UNIT = "controller steps"
-BUDGET = {"quick": {"runs": 6000, "wall": 75}, "thorough": {"runs": 400000, "wall": 900}}
+BUDGET = {"quick": {"runs": 24000, "wall": 80}, "thorough": {"runs": 400000, "wall": 900}}
 SHRINK_LISTS = ("ops",)
 PROBES = {"C20": ["stop:budget", "stop:patience", "stop:reject", "stop:tol", "step-after-stop",
                   "reset-after-stop", "reset-with-stale-patience", "exact-threshold", "batched-mixed",
